@@ -213,7 +213,12 @@ func c06TarInCheck(a vh.Args, r *vh.Result, c *c06TarInCase) error {
 			}
 			cls := "cli-tar/exit0-but-entries-missing"
 			if strings.HasPrefix(c.How, "ungrouped") {
-				cls = "cli-tar/ungrouped-tar-entries-dropped"
+				// which entries of a tar stream that is not grouped by directory reach the catar is C05's
+				// statement, not C06's: recorded, not judged
+				if derr == nil && c07DiffTree(got, want) != "" {
+					r.Dist("cli:tar-input ungrouped: entries dropped (not judged here, C05)")
+				}
+				return nil
 			}
 			if derr != nil {
 				r.Fail("predicate", "cli-tar/exit0-but-archive-malformed", fmt.Sprintf("desync tar -i (input %s) exited 0 but the archive its index describes does not decode: %v", c.How, derr), c)
